@@ -5,6 +5,7 @@ package main
 import (
 	"fmt"
 	"strings"
+	"time"
 
 	"github.com/NethermindEth/juno/db/memory"
 	"verif/harness/lib"
@@ -289,5 +290,53 @@ func (h *harness) blockTxHistory(c chainSpec, budget int) {
 		}
 		h.bt.transition(c, d, oc.final, "return", oc.ret, "cancel-at-read")
 		h.resumeAndCheck(c, oc.final, twin, "resume-after-cancel", 1)
+	}
+}
+
+// blockTxWriteFailures: a batch write fails (once, or from then on: disk full). Migrate must return
+// the error (not hang, not report completion), the database must still satisfy the invariant and
+// a rerun on a healthy store must complete the migration.
+func (h *harness) blockTxWriteFailures() {
+	c := chainSpec{Seed: 3, Counts: repeatInt(2, 60), Layout: strings.Repeat("o", 60)}
+	d, err := c.build()
+	if err != nil {
+		return
+	}
+	hangs := 0
+	for _, all := range []bool{false, true} {
+		for _, inflate := range []bool{true, false} {
+			for k := 1; k <= 9; k++ {
+				if hangs >= 1 {
+					h.res.Hit("bt-writefail:skipped-after-hangs")
+					continue
+				}
+				plan := btPlan{Inflate: inflate, FailAt: k, FailAll: all}
+				o := runBlockTxD(d, plan, false, 2500*time.Millisecond, false)
+				h.res.Case(fmt.Sprintf("writefail|%+v", plan), true)
+				h.res.Hit("bt-writefail:" + o.ret)
+				switch {
+				case o.ret == "hang":
+					hangs++
+					h.res.Hit("oracle:migration-hangs-after-failed-batch-write")
+					h.res.Violate(lib.Violation{Sig: "migration-hangs-after-failed-batch-write",
+						What: "a batch write failed (from commit attempt " + fmt.Sprint(k) + " on, as with a full disk) while the ingestors flush at the size threshold: " +
+							"the committer returns without releasing the batch slot, an ingestor blocks forever in batchSemaphore.GetBlocking() " +
+							"(context.Background), Migrate never returns and cancelling the context does not help",
+						Replay: map[string]any{"spec": c, "plan": plan}})
+					continue
+				case o.ret == "panic":
+					h.res.Violate(lib.Violation{Sig: "blocktx-migrate-panic", What: o.errText, Replay: map[string]any{"spec": c, "plan": plan}})
+					continue
+				case o.failedWrites > 0 && o.ret != "failed":
+					h.res.Violate(lib.Violation{Sig: "blocktx-swallows-failed-batch-write",
+						What:   fmt.Sprintf("%d batch writes failed and Migrate returned %q", o.failedWrites, o.ret),
+						Replay: map[string]any{"spec": c, "plan": plan}})
+					continue
+				}
+				kind := "return"
+				h.bt.transitionW(c, d, o.final, kind, o.ret, "write-failure", o.failedWrites > 0)
+				h.resumeAndCheck(c, o.final, nil, "resume-after-write-failure", 0)
+			}
+		}
 	}
 }
